@@ -149,6 +149,12 @@ def run(ctx):
             extra.append({"seed": ctx.seed, "jitter": 0.0, "payloads": {"f": {"flavour": ff}, "b1": {"flavour": ff, "on_cancel": "base:KeyboardInterrupt"}, "b2": {"flavour": "threading"}},
                           "script": [{"op": "adopt", "p": "f"}, {"op": "adopt", "p": "b1"}, {"op": "adopt", "p": "b2"}, {"op": "accept"}, {"op": "wait_running"}, {"op": "wait_start", "p": "f"}, {"op": "wait_start", "p": "b1"}, {"op": "wait_start", "p": "b2"},
                                      {"op": "end", "p": "f", "how": how}, {"op": "wait_end", "timeout": 4.0}], "shape": "targeted-failure-then-interrupting-bystander"})
+    # a payload fails and, while the runtime is still closing because of it (a bystander's
+    # shielded cleanup takes its time), ^C arrives: the failure came first, the run ends by raising
+    for ff in scen.FLAVS:
+        extra.append({"seed": ctx.seed, "jitter": 0.0, "poll": 0.03, "payloads": {"f": {"flavour": ff}, "t1": {"flavour": "trio", "cleanup": 1, "shielded": 8}, "a1": {"flavour": "asyncio", "cleanup": 1}},
+                      "script": [{"op": "adopt", "p": "f"}, {"op": "adopt", "p": "t1"}, {"op": "adopt", "p": "a1"}, {"op": "accept"}, {"op": "wait_running"}, {"op": "wait_start", "p": "f"}, {"op": "wait_start", "p": "t1"}, {"op": "wait_start", "p": "a1"},
+                                 {"op": "end", "p": "f", "how": "exc:UserExc"}, {"op": "sleep", "ms": 80}, {"op": "sigint", "force": True}, {"op": "wait_end", "timeout": 4.0}], "shape": "targeted-failure-then-sigint-while-closing"})
     scen.run_family(ctx, sh, names=NAMES, allow=(), extra_scenarios=extra, mc_invariants=["FailStopSafe", "CauseFaithful", "InterruptEndsQuietly", "AtMostOnce", "CleanupBeforeEnd"], mc_properties=["FailStopLive"], per_shape=16 if thorough else 6, depth=40, label="c01")
     ctx.extra["rule"] = "shapes = failing flavour x failure kind (non-None value incl. falsy ones / Exception / BaseException / KeyboardInterrupt) x registration time (queued, adopted from a thread or from a payload of each flavour, service created before or after start) with bystanders of all flavours; per shape TLC-simulated behaviours projected to the controllable actions; distinct non-trivial = distinct (shape, sequence of starts/ends/cancellations/returns observed)"
     ctx.assumptions = [
